@@ -1149,8 +1149,13 @@ def expand_connectors(node: ast.Class) -> None:
                         # disconnected flow variables in this way.  We don't initialize
                         # all components of vectors to zero in 'flow_connections' as we
                         # do not always know the length of vectors a priori.
-                        disconnected_flow_variables.pop(left_name, None)
-                        disconnected_flow_variables.pop(right_name, None)
+                        # A connector of a sub-component that is only connected as an
+                        # outside connector (inside its own component) is still unconnected
+                        # where the component is declared, and its flow must be zero.
+                        if equation.__left_inner or CLASS_SEPARATOR not in equation.left.name:
+                            disconnected_flow_variables.pop(left_name, None)
+                        if equation.__right_inner or CLASS_SEPARATOR not in equation.right.name:
+                            disconnected_flow_variables.pop(right_name, None)
                     elif connector_variable.prefixes[0] in ["constant", "parameter"]:
                         # Skip constants and parameters in connectors.
                         pass
